@@ -1108,11 +1108,12 @@ class ElectrumX(SessionBase):
             await self.send_notification('blockchain.headers.subscribe', args)
 
         touched = touched.intersection(self.hashX_subs)
-        # Subscriptions still being set up are told to compute their status again instead
+        # Subscriptions still being set up are told to compute their status again.  They are
+        # notified as well: the request may yet fail (e.g. time out) on top of an earlier
+        # subscription to the same hashX, whose client would otherwise never learn of the change.
         for hashX in (self._subscribing if height_changed else touched.intersection(self._subscribing)):
             for notified in self._subscribing[hashX]:
                 notified[0] = True
-        touched = touched.difference(self._subscribing)
         if touched or (height_changed and self.mempool_statuses):
             changed = {}
 
